@@ -70,6 +70,7 @@ func identityOnly(t reflect.Type) bool { return t.Kind() == reflect.Chan || t.Ki
 const anyMatcher = "\x00ANY"
 
 type cbInv struct {
+	task   int
 	exp    *expState
 	kind   string // run | rar | prov<i>
 	argFPs []string
@@ -145,7 +146,7 @@ func (r *testifyRun) trig(m *methodInfo, style string) string {
 
 func (r *testifyRun) recorder(e *expState, kind string, ft reflect.Type, outs func() []reflect.Value) reflect.Value {
 	return reflect.MakeFunc(ft, func(in []reflect.Value) []reflect.Value {
-		inv := cbInv{exp: e, kind: kind, argFPs: fpsOfReceived(e.m, in)}
+		inv := cbInv{task: simsync.CurTask(), exp: e, kind: kind, argFPs: fpsOfReceived(e.m, in)}
 		simsync.Yield()
 		if outs != nil {
 			inv.res = outs()
@@ -350,7 +351,12 @@ func (r *testifyRun) call(task, oi int, op Op, ops []Op) {
 	var outs []reflect.Value
 	pv, panicked := safeCall(func() { outs = r.mv.MethodByName(m.Name).Call(args.Vals) })
 	what := m.Name + args.Descr
-	cbs := r.cbs[cbs0:]
+	var cbs []cbInv // callbacks run by this task during this operation (other tasks' interleave)
+	for _, cb := range r.cbs[cbs0:] {
+		if cb.task == task || cb.task < 0 {
+			cbs = append(cbs, cb)
+		}
+	}
 	if e == nil {
 		r.tags["probe:unmatched-call"] = true
 		trig := r.trig(m, "no-expectation")
@@ -598,15 +604,36 @@ func RunTestify(reg *Registration, cs *Case) (*Violation, RunStats) {
 	return nil, st
 }
 
-// tokenMethod reports whether some parameter of m carries a unique token (so that exact
-// matchers tell calls apart).
+// tokenType reports whether generated values of t have a unique content fingerprint.
+func tokenType(t reflect.Type, depth int) bool {
+	if depth > 4 {
+		return false
+	}
+	switch t.Kind() {
+	case reflect.String, reflect.Int, reflect.Int16, reflect.Int32, reflect.Int64, reflect.Uint, reflect.Uint16, reflect.Uint32, reflect.Uint64, reflect.Float32, reflect.Float64:
+		return true
+	case reflect.Ptr, reflect.Array:
+		return tokenType(t.Elem(), depth+1)
+	case reflect.Interface:
+		return true // an *Omni with a unique tag, or a unique scalar
+	case reflect.Struct:
+		for i := 0; i < t.NumField(); i++ {
+			if t.Field(i).IsExported() && tokenType(t.Field(i).Type, depth+1) {
+				return true
+			}
+		}
+	}
+	return false // bool, 8-bit integers, slices (may be empty), maps, chans, funcs
+}
+
+// tokenMethod reports whether some fixed parameter of m carries a unique token (so that exact
+// matchers tell the calls of different operations and tasks apart).
 func tokenMethod(m *methodInfo) bool {
 	for i := 0; i < m.Type.NumIn(); i++ {
 		if m.Variadic && i == m.Type.NumIn()-1 {
 			continue
 		}
-		switch m.Type.In(i).Kind() {
-		case reflect.String, reflect.Int, reflect.Int64, reflect.Float64, reflect.Struct:
+		if tokenType(m.Type.In(i), 0) {
 			return true
 		}
 	}
@@ -664,7 +691,7 @@ func genTestifyCase(prop string, reg *Registration, cs *Case, ms []methodInfo, r
 		}
 	}
 	if len(tok) == 0 {
-		tok = ms
+		return // no method of this interface can be matched exactly: GenCase draws another mock
 	}
 	hot := tok[r.Intn(len(tok))]
 	nt := 2 + r.Intn(3)
